@@ -1,14 +1,16 @@
 (** Property C05 — the exact algorithm returns a global optimum, with or without CPLEX.
-    Status: the branch-and-bound of the solver (CBC through PuLP; CPLEX is not installed) is outside the
-    model.  What is proved is the oracle every answer is judged against: [opt] is the minimum generalized
-    Kemeny score over ALL rankings with ties of the universe (lower bound + attained), optimality is
-    equivalent to reaching it, the table of a dataset is mirror-consistent and sums to the Kemeny score
-    (C02), the exchange lemma justifying the SCC decomposition and the all-tied shortcut (C06).  Every
-    consensus returned by the selector (CPLEX absent: free-solver fallback) and by the free-solver model
-    is judged in Coq: well-formed over the universe, score = opt, reported score = opt, flagged optimal.
-    Reserved names for the ILP formulation theorems (not in this version): C05_ilp_feasible_iff,
-    C05_ilp_objective, C05_decode_encode. *)
-From Corankco Require Import Prelude Scheme Rank KemenySpec CostTable CostTableProof OptTheory Partition PartitionProof.
+    Status: the integer program built by ExactAlgorithmPulp is modelled row for row (ILP.v; compared with the
+    program captured at [LpProblem.solve] on every run) and proved to be a correct formulation:
+    [C05_ilp_optimal] - decoding, by the decoder of the source, ANY feasible point that minimises the objective
+    over the feasible points gives a ranking with ties of the universe with the minimum generalized Kemeny score,
+    and the objective value is that minimum; [C05_ilp_min_reached] - the program is feasible and its minimum is
+    [opt].  The component-fixing rows are covered (they lose no optimum: exchange lemma).  What stays outside the
+    model is the branch-and-bound of the solver (CBC through PuLP): that its answer is optimal for the program it
+    was given is the remaining assumption; that the answer is integral and feasible for the MODEL's rows, decodes
+    to the returned consensus and has objective = reported score = the verified brute-force optimum [opt] is
+    checked on every run.  CPLEX is not installed: the CPLEX models are not exercised (the selector's fallback to
+    the free solver is). *)
+From Corankco Require Import Prelude Scheme Rank KemenySpec CostTable CostTableProof OptTheory Partition PartitionProof ILP ILPProof.
 Local Open Scope Z_scope.
 
 Theorem C05_opt_lower : forall K U c, mirror K -> NoDup U -> wfU U c -> opt K U <= score K c.
@@ -42,3 +44,38 @@ Theorem C05_all_tied_sound : forall K G c,
   mirror K -> NoDup G -> can_be_all_tied K G = true -> wfU G c -> score K [G] <= score K c.
 Proof. exact all_tied_optimal. Qed.
 Print Assumptions C05_all_tied_sound.
+
+(** * the integer program *)
+(** the boolean feasibility test run on the solver's answer is the logical system of constraints *)
+Theorem C05_feasible_iff : forall n P v, feasible n P v = true <-> Feas n P v.
+Proof. exact feasible_Feas. Qed.
+Print Assumptions C05_feasible_iff.
+
+(** every feasible point decodes to a ranking with ties of all the elements whose score is the objective *)
+Theorem C05_decode_score : forall K n P v, mirror K -> Feas n P v ->
+  wfU (seq 0 n) (decode n v) /\ score K (decode n v) = obj_value K n v.
+Proof. exact decode_score. Qed.
+Print Assumptions C05_decode_score.
+
+(** every position function (hence every ranking with ties) that respects the component order is a feasible
+    point with objective = its score *)
+Theorem C05_encode : forall K n P p, mirror K -> (forall i j, earlier P i j -> p i < p j) ->
+  Feas n P (v_p p) /\ obj_value K n (v_p p) = scoref K (seq 0 n) p.
+Proof. intros K n P p M H. split; [exact (encode_Feas n P p H)|exact (encode_obj K n P p M H)]. Qed.
+Print Assumptions C05_encode.
+
+Theorem C05_ilp_optimal : forall K n P v,
+  mirror K -> is_partition_of (seq 0 n) P = true -> no_back_arcs K P = true ->
+  feasible n P v = true ->
+  (forall v', feasible n P v' = true -> obj_value K n v <= obj_value K n v') ->
+  wfU (seq 0 n) (decode n v) /\ score K (decode n v) = opt K (seq 0 n) /\
+  obj_value K n v = opt K (seq 0 n) /\ is_optimal K (seq 0 n) (decode n v).
+Proof. exact ilp_optimal. Qed.
+Print Assumptions C05_ilp_optimal.
+
+Theorem C05_ilp_min_reached : forall K n P,
+  mirror K -> is_partition_of (seq 0 n) P = true -> no_back_arcs K P = true ->
+  exists v, feasible n P v = true /\ obj_value K n v = opt K (seq 0 n) /\
+            forall v', feasible n P v' = true -> obj_value K n v <= obj_value K n v'.
+Proof. exact ilp_min_reached. Qed.
+Print Assumptions C05_ilp_min_reached.
